@@ -248,7 +248,7 @@ func runC15(t *testing.T, rng *rand.Rand, rec *sim.Rec, tier string, caseNo int)
 		TimeoutSets: [][3]time.Duration{{0, 0, 0}, {2 * time.Minute, 3 * time.Minute, 10 * time.Minute}, {7 * time.Minute, 4 * time.Minute, 6 * time.Minute}},
 		Lifetimes:   []int64{-1, -1, 600, 1800},
 		W:           map[string]int{"allocate": 4, "perm": 5, "chan": 5, "data": 3, "time": 1, "refresh": 1},
-		TCPAllocPct: 30,
+		TCPAllocPct: 30, SecondListener: 35,
 	}
 	h := newHist(t, rng, rec, k)
 	x := &c15{h: h, seen: map[allocHandle]string{}}
@@ -568,7 +568,14 @@ func (x *c15) run(rng *rand.Rand, caseNo int) {
 func (x *c15) finish(cause string) {
 	h := x.h
 	w, m, rec := h.w, h.m, h.rec
-	// finally: Server.Close, clients close their sockets; nothing may remain or happen afterwards
+	// finally: Server.Close, clients close their sockets; nothing may remain or happen afterwards.
+	// Now and then the application has closed the first listener's socket itself beforehand:
+	// Server.Close then meets a Close error on that one and must still release everything else.
+	if len(w.ServerUDP) >= 2 && h.rng.Intn(2) == 0 {
+		_ = w.ServerUDP[0].Close()
+		w.Settle()
+		rec.FP("server-close/first-listener-already-closed")
+	}
 	_ = w.Srv.Close()
 	x.serverClosed = true
 	w.Sleep(8 * time.Second)
